@@ -46,6 +46,7 @@ class Dtd:
     default_ns: str | None = None
     order_preserving: bool = True
     features: set = field(default_factory=set)
+    attr_ns: dict = field(default_factory=dict)  # prefix -> uri of attribute-only namespaces
 
     def decl(self, name):
         for e in self.elements:
@@ -60,6 +61,7 @@ class DtdGen:
         self.salt = salt
         self.hostile = hostile
         self.namespaces = namespaces  # declare a default / prefixed namespace through #FIXED xmlns attributes on the root
+        self.attr_namespaces = not hostile
         self.used = set()
         self.class_names = ClassNames()
 
@@ -143,6 +145,10 @@ class DtdGen:
             m.items.append(CM("elem", nm, occur=rng.choice(["", "", "?", "*", "+"])))
         if depth == 0:
             m.occur = rng.choice(["", "", "", "*", "+"]) if kind == "choice" else rng.choice(["", "", "", "+"])
+            if kind == "choice" and m.occur and rng.random() < 0.6:
+                for x in m.items:  # a repeating choice of single elements: the order-preserving shape
+                    if x.kind == "elem":
+                        x.occur = ""
             if m.occur in ("*", "+") and not (kind == "choice" and all(x.kind == "elem" and x.occur == "" for x in m.items)):
                 d.order_preserving = False
         return m
@@ -182,6 +188,21 @@ class DtdGen:
                 d.features.add("att-default")
             d.features.add(f"att-{t}")
             out.append(a)
+        if self.attr_namespaces and rng.random() < 0.2:
+            # namespaced attributes: the prefixes are declared by #FIXED xmlns:* attributes of the same element
+            # (several adjacent declarations); the element itself stays without namespace
+            n = rng.choice([1, 2, 2, 3])
+            # (the order in which libxml2 reports the declarations depends on the names: vary them)
+            decls = [(pfx, f"urn:dtdgen:{self.salt}:{pfx}") for pfx in rng.sample(["p", "q", "a1", "a2", "xlink", "ns", "x", "meta"], n)]
+            for pfx, uri in decls:
+                out.append(AttDef(f"xmlns:{pfx}", "CDATA", decl="#FIXED", value=uri))
+            for pfx, uri in decls:
+                a = AttDef(f"{pfx}:{rng.choice(['code', 'kind'])}", "CDATA", decl=rng.choice(["#REQUIRED", "#IMPLIED", "default"]))
+                if a.decl == "default":
+                    a.value = rng.choice(["value", "x-y"])
+                out.append(a)
+            d.attr_ns.update(dict(decls))
+            d.features.add("att-namespaced")
         return out
 
     def att_value(self, a, fixed=False, ids=None):
@@ -195,7 +216,7 @@ class DtdGen:
         if a.name == "xml:lang":
             return rng.choice(["en", "fr", "de-CH"])
         if fixed:
-            return rng.choice(["value", "two words", "é", "1", "x-y"])  # no markup characters in DTD default literals
+            return rng.choice(["value", "two words", "é", "1", "x-y", ""])  # no markup characters in DTD default literals
         return rng.choice(["value", "two words", "q&a", "é", "a<b", "1"])
 
 
@@ -278,6 +299,8 @@ class DocGen:
             nsmap["p"] = self.d.ns_uri
         if self.d.default_ns:
             nsmap[None] = self.d.default_ns
+        if any(a.name.startswith("xmlns:") and a.name[6:] in self.d.attr_ns for a in e.atts):
+            nsmap.update({a.name[6:]: a.value for a in e.atts if a.name.startswith("xmlns:") and a.name[6:] in self.d.attr_ns})
         el = etree.Element(self.qname(name), nsmap=nsmap)
         for a in e.atts:
             if a.name.startswith("xmlns"):
@@ -332,6 +355,9 @@ class DocGen:
     def att_qname(self, name):
         if name.startswith("xml:"):
             return f"{{http://www.w3.org/XML/1998/namespace}}{name[4:]}"
+        if ":" in name and name.split(":", 1)[0] in self.d.attr_ns:
+            p, l = name.split(":", 1)
+            return f"{{{self.d.attr_ns[p]}}}{l}"
         return name
 
     def times(self, occur):
